@@ -239,10 +239,45 @@ pub fn run(scn: &Value) -> Value {
                 std::env::set_current_dir(&root).unwrap();
             }
         }
+        // the same paths recorded AGAIN in the same process after the file t/f was given other bytes of the same
+        // length, its modification time put back: the second recording reports the new content wherever the first
+        // reported the old one, and is otherwise the same
+        let mut stale: Option<Value> = None;
+        let f_path = root.join(map_path("t/f", class));
+        if scn["fs"]["f"] == true && results[0]["out"] == "ok" {
+            if let Ok(meta) = std::fs::metadata(&f_path) {
+                let mtime = meta.modified().ok();
+                std::fs::write(&f_path, content("F3", big)).unwrap();
+                if let (Some(t), Ok(fh)) = (mtime, std::fs::File::options().write(true).open(&f_path)) {
+                    let _ = fh.set_modified(t);
+                }
+                let r = guarded(|| in_toto::runlib::record_artifacts(&argrefs, Some(algs), lstrip));
+                let mut want = results[0]["entries"].clone();
+                for e in want.as_array_mut().unwrap() {
+                    if e["file"] == "F" {
+                        e["file"] = json!("F3");
+                    }
+                }
+                let got = match r {
+                    Ok(Ok(map)) => {
+                        let (entries, dig_ok) = entries_of(&map, algs, class, big);
+                        json!({"out": "ok", "entries": entries, "digests_ok": dig_ok})
+                    }
+                    Ok(Err(e)) => json!({"out": "err", "msg": e.to_string()}),
+                    Err(p) => json!({"out": "panic", "msg": p}),
+                };
+                if got["out"] != "ok" || got["entries"] != want {
+                    stale = Some(json!({"got": got, "want": want}));
+                }
+            }
+        }
         // report the first result that differs from the first order (if any), else the first
         let mut first = results[0].clone();
         if let Some(d) = dot_differs {
             first["dot_root_differs"] = d;
+        }
+        if let Some(d) = stale {
+            first["second_recording_differs"] = d;
         }
         let differing = results.iter().find(|r| r["out"] != first["out"] || r["entries"] != first["entries"]).cloned();
         res = match differing {
